@@ -24,7 +24,8 @@ META = {
     "design_ref": "DESIGN.md §4 C16",
 }
 
-TAINT = "<&>\"'"
+# (the trailing entity-like text makes a MISSING escape visible to the unescape-once relation as well as a double one)
+TAINT = "<&>\"'&lt;"
 
 
 def relation_ok(off, on):
@@ -89,7 +90,15 @@ CONSUMERS = [
     "{% for q in [C, y] %}{{ q }}{{ loop.cycle(C, y) }}{% endfor %}", "{% with z = C %}{{ z }}{{ y }}{% endwith %}",
     "{% filter trim %} {{ C }}{{ y }} {% endfilter %}", "{% if C %}{{ C }}{% endif %}", "{{ {'k': C}.k ~ y }}", "{{ C|string ~ y }}",
     "{{ C|trim ~ y }}", "{{ [C, C]|join(y)|trim }}", "{{ cyc.next() ~ y }}",
+    # str.format / format_map / % with a safe format string and safe or unsafe arguments (the sandbox wraps these calls)
+    "{{ C.format(y) }}", "{% set fs %}<i>{}</i>{}{% endset %}{{ fs.format(C, y) }}", "{% set fs %}<i>{a}</i>{b}{% endset %}{{ fs.format(a=C, b=y) }}",
+    "{% set fs %}<i>{a}</i>{b}{% endset %}{{ fs.format_map({'a': C, 'b': y}) }}", "{% set fs %}<i>%s</i>%s{% endset %}{{ fs % (C, y) }}",
+    "{% set fs %}<i>%s</i>%s{% endset %}{{ fs|format(C, y) }}",
+    # (a PLAIN format string is not a consumer: str % Markup is a new unsafe str by MarkupSafe's rules, escaped once as a whole)
+    # constants of every type are escaped like any other value
+    "{{ ['&lt;', '<'] }}{{ {'k': '&amp;<'} }}{{ ('&gt;',) }}{{ 1 ~ '&lt;' }}{{ '&lt;' ~ 1.5 }}{{ ['&lt;']|first }}{{ C }}",
 ]
+ENV_CLASSES = ("Environment", "SandboxedEnvironment", "ImmutableSandboxedEnvironment")
 
 
 class TNode:
@@ -105,12 +114,14 @@ def family_shard(arg):
     p = core.Part()
     loader_map = {"inc": "I{{ x }}<inc>", "lib": "{% macro lm(v) %}<l>{{ v }}</l>{% endmacro %}",
                   "base": "B[{% block blk %}b{{ x }}{% endblock %}]"}
-    for cons in CONSUMERS:
+    import jinja2.sandbox
+
+    for cons, ecls in ((c, e) for c in CONSUMERS for e in ENV_CLASSES):
         src = prelude + cons.replace("C", cexpr)
         for async_ in (False, True):
             outs = {}
             for ae in (False, True):
-                env = jinja2.Environment(loader=jinja2.DictLoader(dict(loader_map)), autoescape=ae, enable_async=async_)
+                env = getattr(jinja2.sandbox, ecls)(loader=jinja2.DictLoader(dict(loader_map)), autoescape=ae, enable_async=async_)
                 data = {"x": TAINT, "y": "y" + TAINT, "tree": [TNode(TAINT, [TNode("a" + TAINT)]), TNode("b")],
                         "cyc": jinja2.utils.Cycler(TAINT, "k")}
                 if async_:
@@ -119,10 +130,10 @@ def family_shard(arg):
                     outs[ae] = corpus.outcome(lambda: env.from_string(src).render(**data))
             p.evals += 1
             off, on = outs[False], outs[True]
-            p.sig(("fam", cname, CONSUMERS.index(cons), isinstance(off, tuple), async_))
+            p.sig(("fam", cname, CONSUMERS.index(cons), isinstance(off, tuple), async_, ecls))
             if not relation_ok(off, on):
-                p.violation(f"C16/double-or-missing-escape/carrier-{cname}" + ("/async" if async_ else ""), {
-                    "msg": f"{src!r} (async={async_}): autoescape off -> {off!r}; on -> {on!r}; unescaped once -> "
+                p.violation(f"C16/double-or-missing-escape/carrier-{cname}" + ("/async" if async_ else "") + ("" if ecls == "Environment" else "/sandbox"), {
+                    "msg": f"{src!r} ({ecls}, async={async_}): autoescape off -> {off!r}; on -> {on!r}; unescaped once -> "
                            f"{html.unescape(on) if isinstance(on, str) else on!r}",
                     "script": "print(%r)\n" % src})
     p.sample({"carrier": cname, "consumers": len(CONSUMERS)}, cap=1)
